@@ -209,6 +209,17 @@ void log2()
   verif_reach("log2-end");
 }
 
+// bit::test(value, mask) = "value and mask have a common bit", for signed types too (the common bit may be the sign bit)
+template <typename T>
+void bit_test_any()
+{
+  T const v{sym<T>("v")}, m{sym<T>("m")};
+  using U = std::make_unsigned_t<T>;
+  bool const common{static_cast<U>(static_cast<U>(v) & static_cast<U>(m)) != 0};
+  verif_assert(fcppt::bit::test(v, fcppt::bit::mask<T>{m}) == common, "bit::test(v, mask) = (v & mask) != 0");
+  verif_reach("bit_test-end");
+}
+
 template <typename T>
 void power_of_2()
 {
@@ -281,3 +292,6 @@ H(h_power_of_2_u8, power_of_2<u8>()) H(h_power_of_2_u16, power_of_2<u16>()) H(h_
 //@harness h_power_of_2_{T} for T in u8,u16,u32,u64 tier=quick
 H(h_interval_distance_i32, interval_distance<i32>()) H(h_interval_distance_i64, interval_distance<i64>())
 //@harness h_interval_distance_{T} for T in i32,i64 tier=quick
+H(h_bit_test_i8, bit_test_any<i8>()) H(h_bit_test_i16, bit_test_any<i16>()) H(h_bit_test_i32, bit_test_any<i32>()) H(h_bit_test_i64, bit_test_any<i64>())
+H(h_bit_test_u8, bit_test_any<u8>()) H(h_bit_test_u64, bit_test_any<u64>())
+//@harness h_bit_test_{T} for T in i8,i16,i32,i64,u8,u64 tier=quick
